@@ -618,6 +618,10 @@ func (h *hist) sign(o *op) []byte {
 		msg = restaketypes.NewMsgUnstake(v.acc.Addr, sdk.NewCoins(sdk.NewInt64Coin(o.denom, o.amt)))
 		o.desc = fmt.Sprintf("%s unstake %d%s (has %d)", v.acc.Name, o.amt, o.denom, v.stake[o.denom])
 	}
+	if o.kind == "vote" && !bigSum(o.signals).IsInt64() {
+		// a power sum beyond int64 is refused by ValidateBasic (possible for any template once a voter owns ~2^62 units)
+		o.anteFail = true
+	}
 	bz := w.SignTx(v.acc, msg)
 	if o.anteFail {
 		v.acc.Seq--
@@ -704,6 +708,7 @@ func (h *hist) applyVote(o *op, tr *abci.ExecTxResult) bool {
 			// not a refutation of the property (it only speaks about accepted votes), but the workload
 			// did not do what the model thinks: make the run inconclusive.
 			h.col.unexpected("a vote the model considers valid was rejected with " + code(tr))
+			run.Extra("unexpected_reject_example", fmt.Sprintf("case %d block %d: %s -> %s %s", h.caseID, h.w.Height, o.desc, code(tr), firstLine(tr.Log)))
 			h.log("UNEXPECTED REJECT %s: %s", code(tr), tr.Log)
 		}
 		return true
